@@ -40,6 +40,17 @@ def attr_pairs():
                     x = x[2]
                 if x[0] in ("payload", "fld", "in"):
                     return var(SOME, x)
+            # u16::try_from(x as u32) where x was a 16-bit number on the way out -> Ok(x); and_then over it applies the function
+            if f.endswith("::try_from") and a and a[0][0] == "cast":
+                x = a[0]
+                while x[0] == "cast":
+                    x = x[2]
+                if x[0] in ("payload", "fld", "in"):
+                    return var(OK, ("cast", "u16", x))
+            if f.endswith("Option::<T>::and_then") and len(a) == 2 and (is_var(a[0], SOME) or is_var(a[0], OK)) and isinstance(a[1], tuple) and a[1][0] == "fnref":
+                return ("app", a[1][1], (a[0][2][0],))
+            if f.endswith("Result::<T, E>::ok") and a and is_var(a[0], OK):
+                return var(SOME, a[0][2][0])
             # Matrix3::from_basic_rotation_id(to_basic_rotation_id(m)→Some.0) -> Ok(snap(m))
             if f.endswith("Matrix3::from_basic_rotation_id") and a:
                 x = a[0]
